@@ -1082,8 +1082,6 @@ impl Vm {
 
     fn jump_finally_impl(&mut self) {
         let return_value = self.peek(0);
-        self.active_fiber_mut().return_ip = Some(self.ip);
-        self.active_fiber_mut().return_value = return_value;
         self.pop();
         let (new_ip, init_stack_size) = {
             let handler = self
@@ -1092,6 +1090,18 @@ impl Vm {
                 .expect("Expected ExcHandler.");
             (handler.finally_ip, handler.init_stack_size)
         };
+        let return_ip = self.ip;
+        {
+            let mut fiber = self.active_fiber_mut();
+            let pending = object::PendingReturn {
+                value: return_value,
+                ip: return_ip,
+                frame_count: fiber.frames.len(),
+                handler_depth: fiber.exc_handlers.len(),
+                nested_trys: 0,
+            };
+            fiber.pending_returns.push(pending);
+        }
         self.active_fiber_mut().close_upvalues(init_stack_size);
         self.active_fiber_mut().stack.truncate(init_stack_size);
         self.ip = new_ip;
@@ -1099,7 +1109,7 @@ impl Vm {
 
     fn end_finally_impl(&mut self) -> Result<(), Error> {
         if self.active_fiber().handling_exception {
-            self.unwind_stack()?;
+            return self.unwind_stack();
         }
         let return_data = self.active_fiber_mut().take_return_data();
         if let Some((value, ip)) = return_data {
@@ -1200,6 +1210,19 @@ impl Vm {
 
         let prev_stack_size = self.active_fiber().current_frame().unwrap().slot_base;
         self.active_fiber_mut().frames.pop();
+        {
+            // Whatever return of this frame was still waiting for a finally block is moot now.
+            let mut fiber = self.active_fiber_mut();
+            let frame_count = fiber.frames.len();
+            while fiber
+                .pending_returns
+                .last()
+                .map(|p| p.frame_count > frame_count)
+                .unwrap_or(false)
+            {
+                fiber.pending_returns.pop();
+            }
+        }
         if self.active_fiber().has_finished() {
             if self.active_fiber().caller.is_some() {
                 self.unload_fiber(None)?;
@@ -1559,6 +1582,7 @@ impl Vm {
             return Err(self.new_error_from_value(exc_object));
         };
 
+        self.active_fiber_mut().unwind_pending_returns(&handler);
         // The saved throw site is only meaningful while the exception is still propagating through
         // finally blocks of the frame that threw it.
         let same_frame = self.active_fiber().frames.len() == handler.frame_count;
